@@ -7,6 +7,7 @@
   _build_scaling_array (symbolic denominators), build_scaling_array (3 modes) -> gen_...                (K at stored index idx)
   get_modes_slices                                                            -> gen_modes_slices_*     (the three slices as (start, stop) with
                                                                                  None = Python's open end, the shape of the block list)
+  make_grid (exponax/_utils.py; full / zero_centered / indexing symbolic)     -> gen_make_grid          (coordinate c at grid index idx, K)
 
 A small symbolic interpreter: every function body is EXECUTED on symbolic values; calls of other translated functions are executed the
 same way (inlined), so a change in a callee changes every generated caller.  Values and their meaning for ONE array element:
@@ -24,7 +25,8 @@ NumPy contracts used (the same as in the header of Layout/Freq.v; they are the t
   jnp.stack(jnp.meshgrid(*l, indexing=I))[c][idx] = l[c][ idx[Freq.mesh_axis (I == 'xy') D c] ];
   [x] * m + [y] is the list with x at positions < m and y at position m;  l[::-1][a] = l[len - 1 - a];
   jnp.linalg.norm(v, axis=0) <= c for an integer vector v and an integer c  <=>  0 <= c and sum v_i^2 <= c^2;
-  Python // and % on ints with a positive divisor are Z.div and Z.modulo; -n // 2 parses as (-n) // 2.
+  Python // and % on ints with a positive divisor are Z.div and Z.modulo; -n // 2 parses as (-n) // 2;
+  jnp.linspace(0, b, n, endpoint=True | False)[j] = j * b / (n - 1 | n).
 Anything not listed raises TranslationError (= the tie is broken, Gen/SpectralGen.v is replaced by a stub)."""
 import ast
 import os
@@ -211,8 +213,11 @@ class Interp:
         for i, st in enumerate(body):
             if isinstance(st, ast.Assign) and len(st.targets) == 1 and isinstance(st.targets[0], ast.Name):
                 env[st.targets[0].id] = self.ev(st.value, env)
-            elif isinstance(st, ast.AugAssign) and isinstance(st.target, ast.Name) and isinstance(st.op, ast.Add):
+            elif isinstance(st, ast.AugAssign) and isinstance(st.target, ast.Name) and isinstance(st.op, ast.Add) \
+                    and isinstance(env.get(st.target.id), list):
                 env[st.target.id] = self.add_lists(env[st.target.id], self.ev(st.value, env))
+            elif isinstance(st, ast.AugAssign) and isinstance(st.target, ast.Name) and st.target.id in env:      # x op= e  is  x = x op e
+                env[st.target.id] = self.binop(st.op, env[st.target.id], self.ev(st.value, env), st)
             elif isinstance(st, ast.Return):
                 raise Return(self.ev(st.value, env))
             elif isinstance(st, ast.Raise):
@@ -449,6 +454,13 @@ class Interp:
                         and ast.unparse(d.left) == "1" and ast.unparse(d.right) == ast.unparse(inner.args[0]):
                     return Ax("Z", f"({f2.split('.')[-1]} {n.term} j)")
             raise TranslationError("frequency list " + ast.unparse(e))
+        if fn == "jnp.linspace" and len(e.args) == 3:
+            a, b, n = (self.ev(x, env) for x in e.args)
+            k = {kk.arg: ast.unparse(kk.value) for kk in e.keywords}
+            if isinstance(a, Int) and a.term == "0" and isinstance(b, Rat) and isinstance(n, Int) and k in ({"endpoint": "True"}, {"endpoint": "False"}):
+                den = f"({n.z()} - 1)" if k["endpoint"] == "True" else n.z()
+                return Ax("K", f"(odiv (omul (fz j) {b.term}) (fz {den}))")
+            raise TranslationError("jnp.linspace " + ast.unparse(e))
         if fn == "jnp.where" and len(e.args) == 3 and not e.keywords:
             c, a, b = (self.ev(x, env) for x in e.args)
             cls = same_container([c, a, b])
@@ -464,6 +476,8 @@ class Interp:
         if fn == "jnp.meshgrid" and len(e.args) == 1 and isinstance(e.args[0], ast.Starred):
             lst = self.ev(e.args[0].value, env)
             k = self.kw(e, env, {"indexing"})
+            if isinstance(lst, tuple) and lst[0] == "rep" and lst[2] == "D":
+                lst = AxList(lst[1].ty, lst[1].term)                 # the same 1-D array on every one of the D positions
             if not isinstance(lst, AxList) or "indexing" not in k:
                 raise TranslationError("meshgrid arguments " + ast.unparse(e))
             ix = k["indexing"]
@@ -632,6 +646,10 @@ def generate():
         if "raise statement" not in str(e):
             raise
     out.append(modes_slices(ip))
+    # make_grid (exponax/_utils.py): linspace(0, L, n, endpoint)[j] = j * L / (n - 1 | n)
+    ipu = Interp(ast.parse(open(os.path.join(REPO, "exponax", "_utils.py")).read()))
+    emit("make_grid", "(full zero_centered xy : bool) (D : nat) (L : K) (N : Z) (c : nat) (idx : list Z)", "K",
+         ipu.call("make_grid", [D, L, N], {"full": Bool("full"), "zero_centered": Bool("zero_centered"), "indexing": xyv}), Mesh)
     out.append("\nEnd Gen.\n")
     return "\n".join(out)
 
